@@ -172,6 +172,14 @@ class C14(G.C13):
     def cases(self, rng, tier, n):
         for c in super().cases(rng, tier, n):
             yield c
+        # forms and surfaces starting / ending with a double quote or a backslash, alone and doubled
+        edge = ['"', '\\', 'a"', '"a', 'a\\', '\\a', '""', '\\\\', '\\"', '"\\', '"a"', '\\a\\', ' "', '" ', '']
+        for i in range(0, len(edge), 3):
+            yield {"kind": "yy", "tokens": [{"id": j, "start": j, "end": j + 1, "lnk": [j, j + 1], "paths": [1],
+                                            "form": cps(f), "surface": (cps(edge[(i + j + 1) % len(edge)]) if j % 2 else None),
+                                            "ipos": 0} for j, f in enumerate(edge[i:i + 3])]}
+        yield G.make_case([{"k": "rule", "id": 0}], [{"pat": "x", "tpl": "x"}], [],
+                          ['" a" "a \\ a\\ \\a', '"" \\\\ \\" "\\', 'a" "'], tok=" ", via="string", kind="specimen")
         for _ in range(n // 3):
             yield gen_yy_case(rng)
         for _ in range(n // 3):
